@@ -103,6 +103,17 @@ CHECKS = {
             "evaluated with the creg integer little-endian as the OpenQASM specification says; parse errors are violations.",
             "qelib1.inc / stdgates.inc transcribed from the OpenQASM specifications from memory (self-test against closed forms); "
             "<=5 qubits.", "DESIGN.md 5/C19"),
+    "C13": ("exploration", "runtime monitor on stabilizer states after every gate + scripted-seed explorer on the Clifford simulators; dense interpreter and independently enumerated group as oracle",
+            "Random Clifford circuits (catalogue families at half-integer exponents with global shifts, only gates with documented "
+            "stabilizer effect, n<=5) are applied gate by gate with cirq.act_on to the tableau and CH-form states: every reported "
+            "stabilizer must stabilize the reference state (sign included), destabilizers must satisfy their commutation "
+            "relations, CH-form amplitudes must equal the reference including global phase; CliffordSimulator.simulate and the "
+            "exact run distributions of CliffordSimulator / StabilizerSampler (all randint draws enumerated) are compared with "
+            "the Born rule. The 24-element group is checked exhaustively (from_unitary, merged_with for all pairs, powers, "
+            "decompositions incl. phase, pauli_tuple, equivalent_gate_before) and the 11520-element two-qubit group through "
+            "words over H, S, CZ matrices (sampled in quick, exhaustive in thorough): from_op_list, inverse, powers, tableau "
+            "then/inverse, decompositions, action on basis states.",
+            "Group enumeration by BFS over generator matrices modulo phase (vf/refmodel/pauli.py); n<=5.", "DESIGN.md 5/C13"),
 }
 
 PENDING_REASON = "check not built yet in this round; design in DESIGN.md section 5 (runtime monitor + reference oracle)"
